@@ -245,6 +245,24 @@ pub fn gen_input(n: usize, rng: &mut ChaCha20Rng) -> Option<(V4, String)> {
         }
         _ => vec![0i64; n], // k = 0: (F,G) = (F0,G0)
     };
+    // one time in six: k is a single term c*x^j or a dense even part plus c*x (quotients whose
+    // transform has constant sub-blocks)
+    if rng.gen_range(0..6) == 0 && shape < 4 {
+        let c = rng.gen_range(1..=mag).max(1) * if rng.gen() { 1 } else { -1 };
+        if rng.gen() {
+            k = vec![0i64; n];
+            k[rng.gen_range(0..n.min(4))] = c;
+        } else {
+            for (i, x) in k.iter_mut().enumerate() {
+                if i % 2 == 1 {
+                    *x = 0;
+                }
+            }
+            if n > 1 {
+                k[1] = c;
+            }
+        }
+    }
     let sname = ["dense", "sparse", "spiky", "zero-k", "zero-k-tiny-FG", "fraction"][shape];
     // scale k down until (F,G) fits below 2^24
     for _ in 0..24 {
@@ -264,6 +282,188 @@ pub fn gen_input(n: usize, rng: &mut ChaCha20Rng) -> Option<(V4, String)> {
         }
     }
     None
+}
+
+// ---------------------------------------------------------------------------
+// the 30-bit prime field underneath babai_reduce_i32
+
+const P30: i64 = 1073754113;
+
+fn powm30(mut b: i64, mut e: i64) -> i64 {
+    let mut r: i128 = 1;
+    let mut bb: i128 = (b.rem_euclid(P30)) as i128;
+    while e > 0 {
+        if e & 1 == 1 {
+            r = r * bb % P30 as i128;
+        }
+        bb = bb * bb % P30 as i128;
+        e >>= 1;
+    }
+    b = r as i64;
+    b
+}
+
+fn negamul_mod30(a: &[i64], b: &[i64]) -> Vec<i64> {
+    let n = a.len();
+    let mut r = vec![0i128; n];
+    for i in 0..n {
+        let ai = a[i].rem_euclid(P30) as i128;
+        if ai == 0 {
+            continue;
+        }
+        for j in 0..n {
+            let p = ai * b[j].rem_euclid(P30) as i128 % P30 as i128;
+            let k = i + j;
+            if k < n {
+                r[k] += p;
+            } else {
+                r[k - n] -= p;
+            }
+        }
+    }
+    r.iter().map(|x| x.rem_euclid(P30 as i128) as i64).collect()
+}
+
+/// Element operations of the 30-bit field against i128 arithmetic on boundary and random
+/// operands (operand pairs around every power of two up to 2^30, around the modulus and its
+/// half, small x small, small x large), and the transforms on structured polynomials.
+pub fn u32_field(ctx: &Ctx, rep: &mut Report) {
+    let mut specials: Vec<i64> = vec![0, 1, 2, 3, P30 - 1, P30 - 2, P30 / 2, P30 / 2 + 1, P30 / 2 - 1, 48440, 52977];
+    for k in 1..31 {
+        for d in [-1i64, 0, 1] {
+            let v = (1i64 << k) + d;
+            if v >= 0 && v < P30 {
+                specials.push(v);
+            }
+        }
+    }
+    for v in [181i64, 255, 256, 12289, 20269, 32767, 32768, 40000, 46340, 46341, 65535, 65536, 65537, 1 << 20, (1 << 24) - 1, 1 << 24] {
+        specials.push(v);
+    }
+    specials.sort();
+    specials.dedup();
+    let check = |a: i64, b: i64, rep: &mut Report| {
+        // operands are handed over as the signed representatives the wrappers accept
+        let sa = if a > P30 / 2 { (a - P30) as i32 } else { a as i32 };
+        let sb = if b > P30 / 2 { (b - P30) as i32 } else { b as i32 };
+        rep.evaluations += 1;
+        let r = monitored(|| (vh::u32f_new(sa), vh::u32f_add(sa, sb), vh::u32f_sub(sa, sb), vh::u32f_mul(sa, sb), vh::u32f_multiply(sa, sb), vh::u32f_neg(sa), vh::u32f_balanced(sa)));
+        let replay = json!({"kind": "u32f", "a": sa, "b": sb});
+        match r {
+            Err(p) => rep.violation(&format!("panic:u32field@{}", short_loc(&p.location)), format!("U32Field operation on ({}, {}) panicked: {}", a, b, p.message), replay),
+            Ok((nw, ad, sb_, ml, ml2, ng, bal)) => {
+                let want = [a, (a + b) % P30, (a - b).rem_euclid(P30), ((a as i128 * b as i128) % P30 as i128) as i64, ((a as i128 * b as i128) % P30 as i128) as i64, (-a).rem_euclid(P30)];
+                let got = [nw as i64, ad as i64, sb_ as i64, ml as i64, ml2 as i64, ng as i64];
+                let names = ["new", "add", "sub", "mul", "multiply", "neg"];
+                for i in 0..6 {
+                    if got[i] != want[i] {
+                        rep.violation(&format!("u32field:{}-wrong", names[i]), format!("U32Field {}({}, {}) = {} expected {}", names[i], a, b, got[i], want[i]), replay.clone());
+                    }
+                }
+                let wb = if a > P30 / 2 { a - P30 } else { a };
+                if bal as i64 != wb {
+                    rep.violation("u32field:balanced-wrong", format!("balanced({}) = {} expected {}", a, bal, wb), replay.clone());
+                }
+            }
+        }
+    };
+    for &a in &specials {
+        for &b in &specials {
+            check(a, b, rep);
+        }
+        rep.nontrivial(format!("special|{}", a).as_bytes());
+    }
+    rep.count("special_operand_pairs", (specials.len() * specials.len()) as u64);
+    let nrand = ctx.sz(400_000, 40_000_000);
+    let r = par_for(16, ncpu(), |w, rep| {
+        let mut rng = rng_for(ctx.seed, &format!("c17-u32f-{}", w));
+        for i in 0..nrand / 16 {
+            // magnitudes spread over all bit lengths on both operands
+            let ka = rng.gen_range(1..31);
+            let kb = if i % 3 == 0 { rng.gen_range(1..18) } else { rng.gen_range(1..31) };
+            let a = rng.gen_range(0..(1i64 << ka)).min(P30 - 1);
+            let b = rng.gen_range(0..(1i64 << kb)).min(P30 - 1);
+            check(a, b, rep);
+            if i % 64 == 0 && a != 0 {
+                let sa = if a > P30 / 2 { (a - P30) as i32 } else { a as i32 };
+                match monitored(|| vh::u32f_inv(sa)) {
+                    Ok(inv) => {
+                        if (inv as i128 * a as i128) % P30 as i128 != 1 {
+                            rep.violation("u32field:inverse-wrong", format!("inverse({}) = {}", a, inv), json!({"kind": "u32f", "a": sa, "b": 0}));
+                        }
+                    }
+                    Err(p) => rep.violation(&format!("panic:u32field-inv@{}", short_loc(&p.location)), p.message.clone(), json!({"kind": "u32f", "a": sa, "b": 0})),
+                }
+            }
+        }
+        rep.count("random_operand_pairs", (nrand / 16) as u64);
+    });
+    rep.merge(r);
+    // transforms: impulses, constants, c*X^j (single terms of every magnitude), random;
+    // round trip and product against the schoolbook product modulo the 30-bit prime
+    let sizes: Vec<usize> = (1..=10).map(|k| 1usize << k).collect();
+    let r = par_for(sizes.len(), ncpu(), |si, rep| {
+        let n = sizes[si];
+        let mut rng = rng_for(ctx.seed, &format!("c17-u32ntt-{}", n));
+        let rb: Vec<i64> = (0..n).map(|_| rng.gen_range(-40i64..=40)).collect();
+        let mut polys: Vec<(String, Vec<i64>)> = vec![];
+        for j in [0usize, 1, 2, 3, n / 2, n - 1] {
+            if j >= n {
+                continue;
+            }
+            for c in [1i64, -1, 255, 20269, 30000, 47111, 65535, 65536, 1 << 20, (1 << 24) - 1, -(1 << 23)] {
+                let mut v = vec![0i64; n];
+                v[j] = c;
+                polys.push((format!("{}*x^{}", c, j), v));
+            }
+        }
+        polys.push(("constant-all".into(), vec![30000i64; n]));
+        // e(x^2) + c*x: dense even part, single odd term
+        for c in [25000i64, 47111, 65000] {
+            let mut v: Vec<i64> = (0..n).map(|i| if i % 2 == 0 { rng.gen_range(-(1i64 << 20)..(1 << 20)) } else { 0 }).collect();
+            if n > 1 {
+                v[1] = c;
+            }
+            polys.push((format!("even-part+{}x", c), v));
+        }
+        for _ in 0..ctx.sz(6, 200) {
+            polys.push(("random".into(), (0..n).map(|_| rng.gen_range(-(1i64 << 23)..(1 << 23))).collect()));
+        }
+        for (name, a) in polys {
+            rep.evaluations += 1;
+            let ai: Vec<i32> = a.iter().map(|&x| x as i32).collect();
+            let bi: Vec<i32> = rb.iter().map(|&x| x as i32).collect();
+            let (a2, b2) = (ai.clone(), bi.clone());
+            let r = monitored(move || {
+                let h = vh::u32_ntt(&a2);
+                let hs: Vec<i32> = h.iter().map(|&x| if x as i64 > P30 / 2 { (x as i64 - P30) as i32 } else { x as i32 }).collect();
+                (vh::u32_intt(&hs), vh::u32_ntt_mul(&a2, &b2), h)
+            });
+            let replay = json!({"kind": "u32ntt", "a": ai, "b": bi});
+            match r {
+                Err(p) => rep.violation(&format!("panic:u32ntt@{}", short_loc(&p.location)), format!("n={} ({}): {}", n, name, p.message), replay),
+                Ok((back, prod, h)) => {
+                    let am: Vec<i64> = a.iter().map(|x| x.rem_euclid(P30)).collect();
+                    if back.iter().map(|&x| x as i64).collect::<Vec<_>>() != am {
+                        rep.violation("u32ntt:roundtrip", format!("intt(ntt(a)) != a modulo the 30-bit prime for n={} ({})", n, name), replay.clone());
+                    }
+                    if h.iter().any(|&x| x as i64 >= P30) {
+                        rep.violation("u32ntt:non-canonical", format!("transform output not reduced for n={} ({})", n, name), replay.clone());
+                    }
+                    let want = negamul_mod30(&a, &rb);
+                    if prod.iter().map(|&x| x as i64).collect::<Vec<_>>() != want {
+                        rep.violation("u32ntt:product", format!("intt(ntt(a).ntt(b)) != a*b modulo (x^n+1, 30-bit prime) for n={} ({})", n, name), replay);
+                    }
+                }
+            }
+            rep.nontrivial(format!("u32ntt|{}|{}", n, name).as_bytes());
+        }
+        rep.count("u32_ntt_sizes", 1);
+    });
+    rep.merge(r);
+    let _ = powm30;
+    rep.require("u32_ntt_sizes", 10);
+    rep.sample(json!({"special_operands": specials.len(), "random_pairs": nrand, "transform_inputs": "c*x^j single terms of all magnitudes, even-part + c*x, constants, random"}));
 }
 
 pub fn witness() -> V4 {
@@ -355,6 +555,11 @@ pub fn captured(ctx: &Ctx, rep: &mut Report) {
 }
 
 pub fn replay(r: &Value) -> bool {
+    if r["kind"] == "u32f" || r["kind"] == "u32ntt" {
+        println!("field-level cases are replayed by re-running the leg u32-field");
+        crate::util::not_replayable();
+        return false;
+    }
     let t = |k: &str| r[k].as_array().unwrap().iter().map(|x| x.as_i64().unwrap()).collect::<Vec<i64>>();
     let mut rep = Report::new();
     check_input(&(t("f"), t("g"), t("F"), t("G")), "replay", &mut rep);
